@@ -307,4 +307,107 @@ theorem eu_lookup_no_panic (okRate : Bytes → Bool) (contents : Bytes) (now max
       · simp
       · split <;> simp
 
+
+/-! ### the UN file -/
+
+theorem sliceFrom_suffix (s : Bytes) (i : Nat) (t : Bytes) (h : sliceFrom s i = .ok t) : t <:+ s := by
+  unfold sliceFrom at h
+  split at h
+  · injection h with h; subst h; exact List.drop_suffix i s
+  · cases h
+
+/-- every (currency, rate) pair the UN scanning loop reports stands verbatim in the text it scanned -/
+theorem unLoop_verbatim (okRate : Bytes → Bool) (fuel : Nat) (s : Bytes) (ps : List (Bytes × Bytes))
+    (h : unLoop okRate fuel s = .ok ps) : ∀ p ∈ ps, p.1 <:+: s ∧ p.2 <:+: s := by
+  induction fuel generalizing s ps with
+  | zero => simp [unLoop] at h
+  | succ fuel ih =>
+    unfold unLoop at h
+    split at h
+    · injection h with h; subst h; intro p hp; cases hp
+    · split at h
+      · split at h
+        · injection h with h; subst h; intro p hp; cases hp
+        · cases h
+      · rename_i start _
+        split at h
+        · cases h
+        · rename_i s1 hs1
+          split at h
+          · cases h
+          · rename_i e1 _
+            split at h
+            · cases h
+            · rename_i s2 hs2
+              split at h
+              · cases h
+              · rename_i st _
+                split at h
+                · cases h
+                · rename_i s3 hs3
+                  split at h
+                  · cases h
+                  · rename_i e2 _
+                    have i1 : s1 <:+ s := sliceFrom_suffix _ _ _ hs1
+                    have i2 : s2 <:+ s1 := sliceFrom_suffix _ _ _ hs2
+                    have i3 : s3 <:+ s2 := sliceFrom_suffix _ _ _ hs3
+                    by_cases hok : okRate (List.take e2 s3) = true
+                    · simp only [hok, Bool.not_true, Bool.false_eq_true, if_false] at h
+                      cases hs4 : sliceFrom s3 (e2 + 7) with
+                      | error e => simp [hs4] at h
+                      | ok s4 =>
+                        simp only [hs4] at h
+                        have i4 : s4 <:+ s3 := sliceFrom_suffix _ _ _ hs4
+                        cases hrest : unLoop okRate fuel s4 with
+                        | error e => simp [hrest] at h
+                        | ok rest =>
+                          simp only [hrest] at h
+                          injection h with h; subst h
+                          intro p hp
+                          cases hp with
+                          | head =>
+                            exact ⟨(List.take_prefix e1 s1).isInfix.trans i1.isInfix,
+                              (List.take_prefix e2 s3).isInfix.trans ((i3.trans (i2.trans i1)).isInfix)⟩
+                          | tail _ hp' =>
+                            have := ih s4 rest hrest p hp'
+                            have i : s4 <:+: s := (i4.trans (i3.trans (i2.trans i1))).isInfix
+                            exact ⟨this.1.trans i, this.2.trans i⟩
+                    · simp [hok] at h
+
+theorem parseUN_verbatim (okRate : Bytes → Bool) (xml : Bytes) (ps : List (Bytes × Bytes)) (h : parseUN okRate xml = .ok ps) :
+    ∀ p ∈ ps, p.2 <:+: xml := by
+  unfold parseUN at h
+  split at h
+  · cases h
+  · split at h
+    · cases h
+    · rename_i s hs
+      intro p hp
+      exact (unLoop_verbatim okRate _ s ps h p hp).2.trans (sliceFrom_suffix _ _ _ hs).isInfix
+
+/-- UN cache: a reported rate stands verbatim in the cache file as presented, hence — crash-point form — for EVERY
+truncation point of a good file, in the good file -/
+theorem un_lookup_verbatim (okRate : Bytes → Bool) (contents : Bytes) (now maxAge : Nat) (cur rate : Bytes)
+    (h : lookup .un okRate contents now maxAge cur = .ok (some rate)) : rate <:+: contents := by
+  unfold lookup at h
+  split at h
+  · simp at h
+  · rename_i xml hx
+    simp only at h
+    split at h
+    · simp at h
+    · rename_i ps hps
+      split at h
+      · simp at h
+      · split at h
+        · rename_i p hp
+          injection h with h; injection h with h; subst h
+          have hm := List.mem_of_find?_eq_some hp
+          exact (parseUN_verbatim okRate xml ps hps p hm).trans (loadCached_suffix _ _ _ _ hx).isInfix
+        · simp at h
+
+theorem un_prefix_safe (okRate : Bytes → Bool) (good : Bytes) (n now maxAge : Nat) (cur rate : Bytes)
+    (h : lookup .un okRate (good.take n) now maxAge cur = .ok (some rate)) : rate <:+: good :=
+  (un_lookup_verbatim okRate _ now maxAge cur rate h).trans (List.take_prefix n good).isInfix
+
 end Fend.C20
